@@ -2,6 +2,7 @@ mod c01;
 mod c03;
 mod c04;
 mod c05;
+mod c06;
 mod cmp;
 mod obs;
 
@@ -17,6 +18,7 @@ fn main() {
         "c03" => c03::run(tier),
         "c04" => c04::run(tier),
         "c05" => c05::run(tier),
+        "c06" => c06::run(tier),
         _ => {
             eprintln!("usage: vparse <c01|...> [--tier quick|thorough]");
             2
